@@ -75,7 +75,7 @@ def _lin(c, A_ub, b_ub, A_eq, b_eq, bounds, opts=None):
         return _lin0(c, A_ub, b_ub, A_eq, b_eq, bounds, opts)
 
 
-def _lin0(c, A_ub, b_ub, A_eq, b_eq, bounds, opts=None):
+def _lin0(c, A_ub, b_ub, A_eq, b_eq, bounds, opts=None, method="highs"):
     return linprog(
         c,
         A_ub=A_ub,
@@ -83,7 +83,7 @@ def _lin0(c, A_ub, b_ub, A_eq, b_eq, bounds, opts=None):
         A_eq=A_eq,
         b_eq=b_eq if A_eq is not None else None,
         bounds=bounds,
-        method="highs",
+        method=method,
         options=opts or HIGHS_OPTS,
     )
 
@@ -155,6 +155,13 @@ def solve_matrix(c, A_ub, b_ub, A_eq, b_eq, bounds, maximize=False):
         if res.status == 2:
             res = _lin(s * np.asarray(c, float), A_ub, b_ub, A_eq, b_eq, bounds,
                        dict(HIGHS_OPTS, primal_feasibility_tolerance=1e-6))
+        if res.status == 4:
+            # HiGHS "numerical difficulties": try the other HiGHS algorithms before giving up
+            for method, opts in (("highs-ipm", HIGHS_OPTS), ("highs-ds", dict(HIGHS_OPTS, presolve=False))):
+                with _QuietFd():
+                    res = _lin0(s * np.asarray(c, float), A_ub, b_ub, A_eq, b_eq, bounds, opts, method)
+                if res.status != 4:
+                    break
     except Exception as e:  # pragma: no cover
         return "error:%s" % e, None, None
     if res.status == 0:
